@@ -3,16 +3,71 @@ import json, os
 import vlib
 
 
-def replay_scripts(tag, behaviours):
-    """Write behaviours, run them through the real library; returns (summary, mismatches)."""
+def replay_scripts(tag, behaviours, timeout=1800, per_chunk_timeout=None):
+    """Write behaviours, run them through the real library; returns (summary, mismatches).
+    The replayer runs as a child process: if it dies (stack overflow, abort) or hangs, the
+    behaviour it was executing is reported as a mismatch of kind crash/timeout and the replay
+    resumes after it."""
+    import subprocess, time
     inp = os.path.join(vlib.WORK, "beh", tag + ".ndjson")
     outp = os.path.join(vlib.WORK, "beh", tag + ".out.ndjson")
-    vlib.write_ndjson(inp, behaviours)
-    rc, out = vlib.gvh(["replay", "script", inp, outp])
-    res = vlib.read_ndjson(outp)
-    summary = [r for r in res if r.get("summary")][0]
-    mism = [r for r in res if not r.get("summary")]
-    return summary, mism
+    prog = os.path.join(vlib.WORK, "beh", tag + ".progress")
+    exe = vlib.build_harness()
+    pending = list(behaviours)
+    total = {"behaviours": 0, "evaluations": 0, "mismatching": 0, "summary": True}
+    mism = []
+    guard = 0
+    while pending:
+        guard += 1
+        if guard > 50:
+            raise vlib.ToolError("replayer keeps dying: %d crashes" % guard)
+        vlib.write_ndjson(inp, pending)
+        if os.path.exists(prog):
+            os.remove(prog)
+        env = dict(os.environ)
+        env["GVH_PROGRESS"] = prog
+        crashed = None
+        try:
+            p = subprocess.run([exe, "replay", "script", inp, outp], cwd=vlib.VERIF, env=env,
+                               timeout=per_chunk_timeout or timeout, stdout=subprocess.PIPE,
+                               stderr=subprocess.STDOUT, text=True)
+            if p.returncode not in (0, 1):
+                crashed = "crash (exit %d): %s" % (p.returncode, p.stdout[-300:])
+        except subprocess.TimeoutExpired:
+            crashed = "timeout"
+        if crashed is None:
+            res = vlib.read_ndjson(outp)
+            sm = [r for r in res if r.get("summary")][0]
+            for k in ("behaviours", "evaluations"):
+                total[k] += sm[k]
+            mism += [r for r in res if not r.get("summary")]
+            break
+        # attribute the crash and resume after the culprit
+        try:
+            cur = json.loads(open(prog).read())
+        except Exception:
+            raise vlib.ToolError("replayer died before starting any behaviour: " + crashed)
+        idx = next((i for i, b in enumerate(pending) if b.get("id") == cur), None)
+        if idx is None:
+            raise vlib.ToolError("replayer died, culprit unknown: " + crashed)
+        culprit = pending[idx]
+        mism.append({"id": cur, "behaviour": culprit,
+                     "fails": [{"call": -1, "what": "timeout" if crashed == "timeout" else "crash", "msg": crashed}]})
+        # the ones before the culprit were fine or are reported by a re-run of that prefix
+        prefix = pending[:idx]
+        if prefix:
+            vlib.write_ndjson(inp, prefix)
+            p = subprocess.run([exe, "replay", "script", inp, outp], cwd=vlib.VERIF, timeout=timeout,
+                               stdout=subprocess.PIPE, stderr=subprocess.STDOUT, text=True)
+            res = vlib.read_ndjson(outp)
+            sm = [r for r in res if r.get("summary")][0]
+            for k in ("behaviours", "evaluations"):
+                total[k] += sm[k]
+            mism += [r for r in res if not r.get("summary")]
+        total["behaviours"] += 1
+        pending = pending[idx + 1:]
+    total["mismatching"] = len(mism)
+    return total, mism
 
 
 def replay_one(path, prop):
